@@ -5,7 +5,8 @@ Protocol model at the granularity of the accesses that carry the flush / shutdow
 `force_flush_pending_sequence_` (`pending`), `force_flush_notified_sequence_` (`notified`), the per-cycle cancel flag,
 the spawn / join of the collect thread, `Produce`, the exporter calls.  Measurements are abstracted to a counter
 `recorded`; `Produce` snapshots it, `Export` delivers the snapshot.  One worker, one collect thread per cycle, any number
-of recorders and `ForceFlush` callers, `Shutdown` callers one after the other.  Wake-ups and timeouts are
+of recorders, `ForceFlush` callers and `Shutdown` callers (`OnShutDown` is serialized by `shutdown_m_` since the D82
+repair, so the test of `joinable()` and the `join()` are one step of the model).  Wake-ups and timeouts are
 nondeterministic (a cycle may start at any time, the future wait may time out at any time). -/
 namespace Otel.Reader
 open Otel.Ring (upd upd_same upd_other)
